@@ -10,8 +10,8 @@ def st(run, checks, shards=1, race=False, timeout=900, env=None, **kw):
 PROPS = {
     "C01": {
         "pkg": "core", "level": "exploration",
-        "quick": {"stages": [st("^TestC01(Authenticity|ReferenceAgainstRealEvents)", 2500), st("^TestC01ManyAuthors", 2), st("^TestC01Gate", 250, pkg="session")]},
-        "thorough": {"stages": [st("^TestC01(Authenticity|ReferenceAgainstRealEvents)", 30000, shards=14, timeout=2400), st("^TestC01ManyAuthors", 40, shards=4, timeout=2400), st("^TestC01Gate", 3000, shards=4, pkg="session", timeout=2400)],
+        "quick": {"stages": [st("^TestC01(Authenticity|ReferenceAgainstRealEvents)", 2500), st("^TestC01ManyAuthors", 2), st("^TestC01Gate", 250, pkg="session"), st("^TestC01TwinsGate", 16, shards=2, pkg="session")]},
+        "thorough": {"stages": [st("^TestC01(Authenticity|ReferenceAgainstRealEvents)", 30000, shards=14, timeout=2400), st("^TestC01ManyAuthors", 40, shards=4, timeout=2400), st("^TestC01Gate", 3000, shards=4, pkg="session", timeout=2400), st("^TestC01TwinsGate", 600, shards=4, pkg="session", timeout=2400)],
                      "fuzz": [{"target": "FuzzC01Serialize", "seconds": 120}]},
     },
     "C03": {
